@@ -767,6 +767,17 @@ impl PatternFusion for LayerNormalizationFusion {
             .and_then(|mean_output| graph.get_scalar_for(epsilon_input, mean_output))
             .ok_or(FusionError::CheckFailed("epsilon not a scalar"))?;
 
+        // The fused operator requires `scale` and `bias` to be scalars or
+        // vectors over the normalized axis, whereas the unfused `Mul` and
+        // `Add` broadcast operands of any rank.
+        for name in ["scale", "bias"] {
+            if let Some(id) = pat_match.node_id(name)
+                && !graph.get_rank(id).is_some_and(|rank| rank <= 1)
+            {
+                return Err(FusionError::CheckFailed("scale or bias is not a vector"));
+            }
+        }
+
         Ok(LayerNormalization {
             axis: -1,
             epsilon: Some(epsilon),
@@ -824,6 +835,13 @@ impl PatternFusion for RMSNormalizationFusion {
 
         if !op_applied_to_last_axis::<ReduceMean>(graph, norm_mean) {
             return Err(FusionError::CheckFailed("not applied to last axis"));
+        }
+
+        // See `LayerNormalizationFusion`.
+        if let Some(scale) = rms_match.node_id("scale")
+            && !graph.get_rank(scale).is_some_and(|rank| rank <= 1)
+        {
+            return Err(FusionError::CheckFailed("scale is not a vector"));
         }
 
         Ok(RMSNormalization {
